@@ -76,6 +76,74 @@ def runCallsRS (s : RS) : List Call → List (List (Nat × Nat)) × RS
     let (rs, s'') := runCallsRS s' cs
     (r :: rs, s'')
 
+/-- the name of a `RandomState` construction: `tokenize(state_data, size, chunks, args…)` -/
+structure NameRS where
+  func : Nat
+  windows : List (Nat × Nat)
+  params : Nat
+  deriving Repr, DecidableEq
+
+def histRS (s : RS) : List Call → List (List (Nat × Nat) × NameRS) × RS
+  | [] => ([], s)
+  | c :: cs =>
+    let (w, s') := stateData s c.nblocks
+    let (rs, s'') := histRS s' cs
+    ((w, ⟨c.func, w, c.params⟩) :: rs, s'')
+
+/-! ### histories: ONE generator object used for several calls in a row
+
+`Generator.choice` follows the same bookkeeping as `_wrap_func` (`_spawn_bitgens(self._bit_generator, nblocks)`, name =
+`tokenize(bitgens, size, chunks, a, replace, p, axis, shuffle)`), so both are an `Op.call`.  `Generator.permutation`
+spawns nothing: it shuffles with the generator's own bit generator (`_shuffle(self._bit_generator, index)`), i.e. it
+consumes the next piece of the generator's own stream; the state that threads through the calls is therefore the pair
+(SeedSequence with its spawn counter, number of direct draws). -/
+
+structure Gen where
+  ss : SeedSeq
+  draws : Nat
+  deriving Repr, DecidableEq
+
+inductive Op where
+  | call (c : Call)
+  | perm
+  deriving Repr, DecidableEq
+
+inductive Out where
+  | arr (seeds : List SeedSeq) (name : Name)
+  | perm (pos : Nat)
+  deriving Repr, DecidableEq
+
+def stepGen (g : Gen) : Op → Out × Gen
+  | .call c =>
+    let (r, ss') := wrapCall g.ss c
+    (.arr r.1 r.2, { g with ss := ss' })
+  | .perm => (.perm g.draws, { g with draws := g.draws + 1 })
+
+def runHist (g : Gen) : List Op → List Out × Gen
+  | [] => ([], g)
+  | o :: os =>
+    let (r, g') := stepGen g o
+    let (rs, g'') := runHist g' os
+    (r :: rs, g'')
+
+def callsOf : List Op → List Call
+  | [] => []
+  | .call c :: os => c :: callsOf os
+  | .perm :: os => callsOf os
+
+def histNames : List Out → List Name
+  | [] => []
+  | .arr _ n :: os => n :: histNames os
+  | .perm _ :: os => histNames os
+
+def permPositions : List Out → List Nat
+  | [] => []
+  | .arr _ _ :: os => permPositions os
+  | .perm p :: os => p :: permPositions os
+
+/-- for every element the index of the first element equal to it (the "same name" classes of a history) -/
+def firstIndex {α : Type} [DecidableEq α] (xs : List α) : List Nat := xs.map fun x => xs.idxOf x
+
 /-! ### choice -/
 
 /-- `_choice_validate_params`, the replace/chunks guard: `none` = NotImplementedError -/
